@@ -327,7 +327,126 @@ def c03_correspond(ctx):
     return co.correspond(ctx.cache, LEAN, sel, ctx.seed, per_entry=per)
 
 
+# ---------------------------------------------------------------------------------------------------
+# C04
+# ---------------------------------------------------------------------------------------------------
+
+OPNAMES = {'operator+': 'add', 'operator-': 'sub', 'operator*': 'mul', 'operator/': 'div',
+           'operator+=': 'add', 'operator-=': 'sub', 'operator*=': 'mul', 'operator/=': 'div'}
+
+
+def is_componentwise_op(e, v):
+    m = e['meta']
+    if m['kind'] not in ('method', 'free', 'mutator') or m.get('name') not in OPNAMES or m.get('unit'):
+        return False
+    sizes = v['arg_sizes']
+    if len(sizes) != 2 or v['tree']['t'] != 'leaf':
+        return False
+    n, k = sizes
+    op = OPNAMES[m['name']]
+    nouts = len([o for o in v['tree']['outs'] if o['l'].rsplit(':', 1)[1].startswith('num')])
+    if nouts != max(n, k):
+        return False
+    if op in ('add', 'sub'):
+        return n == k
+    if op == 'mul':
+        return n == 1 or k == 1
+    return k == 1
+
+
+def c04_search(ctx, failing, corr, broken):
+    """Evaluate C04's own statement on the real code: each output component must be the correctly
+    rounded operation on the matching input components (exact rational reference)."""
+    import pyfloat
+    rng = random.Random(ctx.seed + 4)
+    ids = set()
+    for rows in failing.values():
+        for (eid, fmt) in rows:
+            ids.add((eid, int(fmt)))
+    if corr:
+        for d in corr['disagreements']:
+            ids.add((d['id'], d['fmt']))
+    cands = []
+    by_id = ctx.by_id
+    if ids:
+        for (eid, fmt) in sorted(ids):
+            e = by_id.get(eid)
+            if e:
+                cands.append((e, fmt))
+    elif broken:
+        for e in ctx.model:
+            if e['meta'].get('name') in OPNAMES and not e['meta']['cls'].startswith(('unit:', 'model:')):
+                cands.append((e, rng.choice((32, 64, 80))))
+        rng.shuffle(cands)
+        cands = cands[:3000]
+    reqs, info = [], []
+    for (e, fmt) in cands:
+        v = e['instances'][0]['fmts'].get(str(fmt))
+        if v is None or e['meta'].get('name') not in OPNAMES or len(v['arg_sizes']) != 2:
+            continue
+        infm = co.input_formats(v['tree'], v['n_in'], fmt)
+        for _ in range(4):
+            vals = co.gen_inputs(rng, infm, v['n_in'])
+            reqs.append((e['index'], fmt, [co.hex_of(*x) for x in vals], []))
+            info.append((e, fmt, v, vals))
+    if not reqs:
+        return []
+    res, err, rc = ctx.run_native(reqs)
+    out = []
+    for (e, fmt, v, vals), r in zip(info, res):
+        if r is None or r.get('error'):
+            continue
+        n, k = v['arg_sizes']
+        op = OPNAMES[e['meta']['name']]
+        xs = [Fraction(-m if s else m) * Fraction(2) ** ex for (s, m, ex) in vals]
+        outs = num_outs(r)
+        if len(outs) != max(n, k):
+            continue
+        for i, (label, c) in enumerate(outs):
+            a, b = (xs[i], xs[n + i]) if n == k else ((xs[i], xs[n]) if k == 1 else (xs[0], xs[1 + i]))
+            if op == 'div' and b == 0:
+                continue
+            # operands stored in another format are converted first, as the code does
+            infm = co.input_formats(v['tree'], v['n_in'], fmt)
+            want = pyfloat.binop(op, pyfloat.round_to(a, fmt) if True else a, pyfloat.round_to(b, fmt), fmt)
+            if isinstance(pyfloat.round_to(a, fmt), str) or isinstance(pyfloat.round_to(b, fmt), str):
+                continue
+            wc = want if isinstance(want, str) else co.canon(want)
+            if c in ('nan',) or wc.lstrip('-') == '0 0' and c.lstrip('-') == '0 0':
+                continue
+            if c != wc:
+                out.append({'kind': 'c04-op', 'entry': e['id'], 'fmt': fmt, 'index': e['index'],
+                            'inputs': [co.hex_of(*x) for x in vals], 'component': i, 'operation': op,
+                            'native_output': c, 'correctly_rounded': wc, 'outputs': r['outs'],
+                            'what': '%s component %d: real code gives %s, correctly rounded %s of the stored '
+                                    'values is %s' % (e['id'], i, c, op, wc)})
+                break
+        if len(out) >= 5:
+            break
+    return out
+
+
+def c04_correspond(ctx):
+    sel = [e for e in ctx.model if not e['meta']['cls'].startswith(('unit:', 'model:')) and
+           (e['meta'].get('name') in OPNAMES or e['meta']['kind'] in ('stdmath', 'ctor'))
+           and not e['meta'].get('unit')]
+    per = 2 if ctx.tier == 'quick' else 30
+    return co.correspond(ctx.cache, LEAN, sel, ctx.seed + 4, per_entry=per)
+
+
 SPECS = {
+    'C04': {
+        'id': 'C04', 'level': 'proof',
+        'lean_targets': ['PhQVerif.Audit.C04'],
+        'checkers': [('C04arith', 'quantityEntries'), ('C04std', 'quantityEntries')],
+        'correspond': c04_correspond,
+        'search': c04_search,
+        'assumptions': [
+            'Fl.add/sub/mul/div of Core/Fl.lean (exact result rounded once, nearest-even) is the meaning of '
+            '"correctly rounded"; it is validated bit for bit against the hardware by the correspondence',
+            'Twins.rows / Compound.rows are derived from the declared signatures by extract/emit_lean.py',
+        ],
+    },
     'C03': {
         'id': 'C03', 'level': 'proof',
         'lean_targets': ['PhQVerif.Audit.C03'],
